@@ -35,7 +35,7 @@ def punct_char(L, name):
 
 def separators(L, a, b):
     pa, pb = punct_char(L, a), punct_char(L, b)
-    seps = [" ", "\n", "\t "]
+    seps = [" ", "\n", "\t ", "\r\n", "\r"]          # OpenQASM 3 whitespace: blank, tab, CR, LF (vertical tab / form feed / Unicode spaces are not in its grammar)
     if pa != "/":
         seps.append("/**/")
     seps.append(" //c\n")
@@ -217,7 +217,7 @@ def run(ctx):
             for ib_ in ([0] if ctx.quick() else range(len(classes[b][1]))):
                 seps = separators(L, a, b)
                 if ctx.quick():
-                    seps = [s for s in seps if s in ("", " ", "/**/", "\n")]
+                    seps = [s for s in seps if s in ("", " ", "/**/", "\n", "\r\n")]
                 for sep in seps:
                     tasks.append(("pair", a, ia, b, ib_, sep))
     for w in L.KEYWORDS:
